@@ -1233,6 +1233,9 @@ namespace c02
                               "after a throwing element constructor: exposed elements are live objects, live == size()",
                               "range constructor driven by a single-pass input iterator"})
             vf::require(c);
+        vf::require("== / != on element types where bytewise and semantic equality differ agree with std::vector");
+        if (has_less<V>)
+            vf::require("< on floating-point / loose-equality element types agrees with std::vector");
         if (has_less<V>)
             vf::require("operator< agrees with std::vector");
         if (has_at<V>)
